@@ -118,13 +118,37 @@ R7 = {
  "C20": "Round 7: the errno table through its consumers (SYSCALL/SECCOMP exit=-N, ToCommandLine -F exit=-N) for N=1..4200.",
 }
 
+# round 8 (DESIGN.md §12.7)
+R8 = {
+ "C01": "Round 8: one event with k records for every k<=1100 leaving by overflow/timeout/Close/EOE; package-level counters of the tree set next to the limits of their type.",
+ "C02": "Round 8: complete and incomplete events arriving below the whole buffer (fixed sizes and every harvested threshold).",
+ "C03": "Round 8: whole-history invariant (nothing between the first and the highest delivered event goes missing unreported) under a re-entrant Stream.",
+ "C10": "Round 8: below-head arrivals at every harvested threshold; package-level counters.",
+ "C19": "Round 8: package-level integer variables exposed by the instrumenter and accelerated across their wrap; records lost at Close reported under this property too.",
+ "C11": "Round 8: two Reassemblers at a time in the free-running race pass; a Stream that is a sync.Locker and locks itself in its callbacks.",
+ "C08": "Round 8: rule dumps with coinciding payloads; acknowledgements whose echoed request is renumbered / zero-filled / all ones; exported constructors over the socket seam; ParseNetlinkError for every short length, 140 verdict words, guard-page placements.",
+ "C16": "Round 8: FromWireFormat decoding in place (buffer aliasing the receiver); SetPID under /proc/self views of nested PID namespaces (file seam).",
+ "C17": "Round 8: afterlife pass (client closed, dropped, three garbage-collection rounds: no further kernel-side activity); k<=100 (failure, event) pairs before every acknowledgement.",
+ "C18": "Round 8: clients with a multicast subscription that send; self-describing payloads; afterlife pass.",
+ "C04": "Round 8: records stamped around the present; Unicode digits and every multi-byte fragment inserted at every header position; caller's line unchanged and parsed from read-only memory.",
+ "C05": "Round 8: caller's text unchanged after every parse; EXECVE with up to 131073 present arguments; lower-case type names.",
+ "C12": "Round 8: visiting-order pass (16 byte strings x 12 decoding contexts x 13 orders, fresh processes); 17 IPv6 address classes x 10 scope ids; SECCOMP compat values.",
+ "C06": "Round 8: shared backing arrays (Build does not write behind the length of a slice it was given); unclean watch path spellings.",
+ "C07": "Round 8: key lists around the joined-length limit; every printable character at the edges of a key.",
+ "C14": "Round 8: requoted line pairs parsed one after the other; one flag repeated 2..65536 times next to a flag of another operation.",
+ "C15": "Round 8: account database disagreeing with the built-in root entries, op 'two hours pass', direct LookupID/LookupName ops.",
+ "C09": "Round 8: related values across fields and records (comm a prefix of the exe's file name, title a prefix of the EXECVE arguments, PATH names vs cwd vs exe).",
+ "C20": "Round 8: foreign normalisation configurations loaded through the exported loader leave the built-in selection unchanged; per-architecture syscall tables through SYSCALL and SECCOMP records (compat 0/1/absent).",
+ "C13": "Round 8: (both changes caught by the round-7 rule-spec and empty-string generators).",
+}
+
 def emit():
     out = {
         "version": 1,
         "setup_cmd": "./setup.sh",
         "hooks": {
             "guard": "verif",
-            "enable": "no in-repo hooks: check-time AST rewrite of the current working tree (engine/instr) + `go build -overlay` that swaps sync/atomic/channel/time/socket/os-user-lookup/os-identity calls for scheduler, clock, socket, account-database and process-identity seams and maps virtual shim packages under <repo>/vshim (DESIGN.md §3.1, §4); the tag `verif` is reserved and passed to no file in the repository",
+            "enable": "no in-repo hooks: check-time AST rewrite of the current working tree (engine/instr) + `go build -overlay` that swaps sync/atomic/channel/time/socket/os-user-lookup/os-identity calls for scheduler, clock, socket, account-database and process-identity seams adds (in the overlay only) a generated accessor for package-level integer variables, and maps virtual shim packages under <repo>/vshim (DESIGN.md §3.1, §4); the tag `verif` is reserved and passed to no file in the repository",
             "baseline_off_cmd": "cd /repo && GOFLAGS=-mod=mod go test -vet=off -count=1 -timeout 25m ./...",
             "source_commits": [],
             "add_only": True,
@@ -135,7 +159,7 @@ def emit():
             {"name": "collide", "path": "engine/collide", "serves_properties": ["C04"], "kind_free_text": "deterministic birthday search for equal-length texts that collide under common 32-bit hashes / weak keys"},
             {"name": "harvest", "path": "engine/harvest", "serves_properties": ["C01", "C02", "C03", "C04", "C05", "C10", "C11", "C12", "C17", "C19"], "kind_free_text": "reads string literals, folded integer constants and AUDIT_ identifiers from the tree under test at check time; generators turn them into tokens, record types and scale scenarios"},
             {"name": "sched", "path": "engine/vshim/sched", "serves_properties": ["C01", "C08", "C11", "C15", "C17", "C18", "C19"], "kind_free_text": "controlled cooperative scheduler + stateless DFS over schedules with iterative preemption bounding; channel operations of the code under test are scheduling points (engine/vshim/vchan); stuck-thread watchdog"},
-            {"name": "seams", "path": "engine/vshim", "serves_properties": ["C06", "C07", "C08", "C14", "C15", "C16", "C17", "C18"], "kind_free_text": "seams the instrumenter routes to: virtual clock (vtime), socket layer (vsys), account database (vuser), process identity and environment (vos)"},
+            {"name": "seams", "path": "engine/vshim", "serves_properties": ["C06", "C07", "C08", "C14", "C15", "C16", "C17", "C18"], "kind_free_text": "seams the instrumenter routes to: virtual clock (vtime), socket layer (vsys), account database (vuser), process identity, environment and files the process reads about itself (vos)"},
             {"name": "sched-conc", "path": "checks/conc", "serves_properties": ["C11"], "kind_free_text": "schedule exploration of Reassembler driver programs + free-running race pass"},
             {"name": "envdfs-client", "path": "checks/client", "serves_properties": ["C08", "C17"], "kind_free_text": "deviation-bounded environment DFS over a simulated kernel (engine/ksim, engine/envdfs)"},
             {"name": "enum-client", "path": "checks/client", "serves_properties": ["C16"], "kind_free_text": "exhaustive enumeration of setter arguments / reply buffers"},
@@ -161,7 +185,7 @@ def emit():
                 "evidence_file": f"/verif/evidence/{pid}.json",
                 "replay_cmd_template": f"./vcheck {pid} --replay {{path}}",
                 "engine": c["engine"],
-                "level_claimed": {"category": c["level"], "text": c["text"] + " " + R7.get(pid, ""), "design_ref": c["design"] + ", §12.6"},
+                "level_claimed": {"category": c["level"], "text": c["text"] + " " + R7.get(pid, "") + " " + R8.get(pid, ""), "design_ref": c["design"] + ", §12.6, §12.7"},
                 "level_note": c["note"],
                 "technique": c["technique"],
             })
